@@ -167,7 +167,7 @@ func cacheSeq(ctx *engine.Ctx) {
 
 // ---- handshakes that differ in the access key only ----
 
-// idHandshakes: four key ids x two salts. The ids differ only beyond their fourth byte, are a
+// idHandshakes: four key ids x four salts (quick: the first three). The ids differ only beyond their fourth byte, are a
 // prefix of each other, or are empty; under the documented checksum (XOR fold of id and salt
 // bytes into four lanes) all eight are pairwise different, which foldOK re-checks.
 var idNames = []string{"user-0", "user-1", "user", ""}
@@ -177,7 +177,15 @@ func idHandshake(i int) (string, []byte) {
 	for j := range salt {
 		salt[j] = byte(j*5 + 1)
 	}
-	salt[2] = byte(0x40 + i/4)
+	// salt variants: 0 the base, 1 differs from it in byte 2, 2 only in byte 20, 3 only in the last byte
+	switch i / 4 {
+	case 1:
+		salt[2] ^= 0x41
+	case 2:
+		salt[20] ^= 0x52
+	case 3:
+		salt[31] ^= 0x63
+	}
 	return idNames[i%4], salt
 }
 
@@ -219,8 +227,12 @@ func runIDSeq(ctx *engine.Ctx, sc idCase) {
 }
 
 func cacheIDs(ctx *engine.Ctx) {
+	nh := 12
+	if ctx.Tier == "thorough" {
+		nh = 16
+	}
 	seen := map[[4]byte]int{}
-	for i := 0; i < 8; i++ {
+	for i := 0; i < nh; i++ {
 		id, salt := idHandshake(i)
 		f := fold(id, salt)
 		if j, dup := seen[f]; dup {
@@ -231,11 +243,11 @@ func cacheIDs(ctx *engine.Ctx) {
 	}
 	depth := 4
 	if ctx.Tier == "thorough" {
-		depth = 6
+		depth = 5
 	}
 	total := int64(1)
 	for i := 0; i < depth; i++ {
-		total *= 8
+		total *= int64(nh)
 	}
 	var idx int64
 	for _, cp := range []int{2, 64} {
@@ -247,18 +259,19 @@ func cacheIDs(ctx *engine.Ctx) {
 			ops := make([]int, depth)
 			c := code
 			for i := range ops {
-				ops[i] = int(c % 8)
-				c /= 8
+				ops[i] = int(c % int64(nh))
+				c /= int64(nh)
 			}
 			sc := idCase{Cap: cp, Ops: ops}
 			hk.Guard(ctx, "cache-ids", sc, func() { runIDSeq(ctx, sc) })
 		}
 	}
-	ctx.Res.Note("cache-ids: all 8^%d sequences over 4 key ids x 2 salts, capacities 2 and 64", depth)
+	ctx.Res.Note("cache-ids: all %d^%d sequences over 4 key ids x %d salts, capacities 2 and 64", nh, depth, nh/4)
 }
 
 type scaleCase struct {
-	N int `json:"capacity"`
+	N      int  `json:"capacity"`
+	Limits bool `json:"limits,omitempty"` // the construction / resize limits instead of a scale run
 }
 
 func saltN(i int) []byte {
@@ -312,37 +325,41 @@ func runScale(ctx *engine.Ctx, sc scaleCase) {
 	ctx.Record("cache-scale", "E", fmt.Sprint(n), true, int64(len(log)), int64(len(log)))
 }
 
+// runLimits: construction and resize limits.
+func runLimits(ctx *engine.Ctx) {
+	func() {
+		defer func() {
+			if recover() == nil {
+				ctx.Fail("cache-scale", "over-capacity-constructed", "NewReplayCache(20001) did not refuse", scaleCase{Limits: true}, nil)
+			}
+		}()
+		service.NewReplayCache(service.MaxCapacity + 1)
+	}()
+	c := service.NewReplayCache(10)
+	if err := c.Resize(service.MaxCapacity + 1); err == nil {
+		ctx.Fail("cache-scale", "over-capacity-resized", "Resize(20001) did not fail", scaleCase{Limits: true}, nil)
+	}
+	if err := c.Resize(service.MaxCapacity); err != nil {
+		ctx.Fail("cache-scale", "max-capacity-refused", "Resize(20000) failed: "+err.Error(), scaleCase{Limits: true}, nil)
+	}
+	var nilCache *service.ReplayCache
+	if !nilCache.Add("k", saltN(1)) || !nilCache.Add("k", saltN(1)) {
+		ctx.Fail("cache-scale", "nil-cache-refused", "a nil (disabled) cache refused a handshake", scaleCase{Limits: true}, nil)
+	}
+	ctx.Record("cache-scale", "E", "limits", true, 4, 4)
+}
+
 func cacheScale(ctx *engine.Ctx) {
 	caps := []int{1, 2, 3, 10, 100, 1000, 20000}
 	for i, n := range caps {
 		if !ctx.Mine(int64(i)) {
 			continue
 		}
-		sc := scaleCase{n}
+		sc := scaleCase{N: n}
 		hk.Guard(ctx, "cache-scale", sc, func() { runScale(ctx, sc) })
 	}
 	if ctx.Mine(7) {
-		// construction limits
-		func() {
-			defer func() {
-				if recover() == nil {
-					ctx.Fail("cache-scale", "over-capacity-constructed", "NewReplayCache(20001) did not refuse", scaleCase{20001}, nil)
-				}
-			}()
-			service.NewReplayCache(service.MaxCapacity + 1)
-		}()
-		c := service.NewReplayCache(10)
-		if err := c.Resize(service.MaxCapacity + 1); err == nil {
-			ctx.Fail("cache-scale", "over-capacity-resized", "Resize(20001) did not fail", scaleCase{20001}, nil)
-		}
-		if err := c.Resize(service.MaxCapacity); err != nil {
-			ctx.Fail("cache-scale", "max-capacity-refused", "Resize(20000) failed: "+err.Error(), scaleCase{20000}, nil)
-		}
-		var nilCache *service.ReplayCache
-		if !nilCache.Add("k", saltN(1)) || !nilCache.Add("k", saltN(1)) {
-			ctx.Fail("cache-scale", "nil-cache-refused", "a nil (disabled) cache refused a handshake", scaleCase{0}, nil)
-		}
-		ctx.Record("cache-scale", "E", "limits", true, 4, 4)
+		hk.Guard(ctx, "cache-scale", scaleCase{Limits: true}, func() { runLimits(ctx) })
 	}
 }
 
@@ -451,7 +468,11 @@ func init() {
 		case "cache-scale":
 			var sc scaleCase
 			json.Unmarshal(rp.Input, &sc)
-			hk.Guard(sub, "cache-scale", sc, func() { runScale(sub, sc) })
+			if sc.Limits {
+				hk.Guard(sub, "cache-scale", sc, func() { runLimits(sub) })
+			} else {
+				hk.Guard(sub, "cache-scale", sc, func() { runScale(sub, sc) })
+			}
 			return sub.Res.Findings
 		}
 		return engine.ReplayScenario(concScenarios(), rp)
